@@ -111,6 +111,10 @@ def userBlocks (x : Arena) : List Block := (x.blocks.filter (·.kind == .user)).
 def step (s : St) (line : String) : St × String :=
   match words line with
   | ["reset"] => ({}, "ok")
+  | ["end"] =>
+    let (sys1, ev1) := s.sys.step (.renew false 0 256 0)
+    let (_, ev2) := sys1.step (.renew true 1 256 1)
+    ({}, s!"ok | {showEvs (ev1 ++ ev2)}")
   | ["pa", i, ps, pol, reuse] =>
     match i.toNat?, ps.toNat?, pol.toNat?, reuse.toNat? with
     | some i, some ps, some pol, some reuse => (s.setPa i { ps := ps, policy := pol, reuse := reuse != 0 }, "ok")
@@ -135,6 +139,7 @@ def step (s : St) (line : String) : St × String :=
   | [r, "alloc", bytes, align] =>
     match reg? r, bytes.toNat?, align.toNat? with
     | some r, some bytes, some align =>
+      if align = 0 ∨ align &&& (align - 1) ≠ 0 then (s, "bad-op") else
       let x := s.sys.get r
       let e := s.envFor x bytes align
       let (x', p, evs) := x.allocate bytes align .user e
